@@ -313,3 +313,12 @@ def run(res, facts, tier):
     _run_c16_prev6(res, facts, tier)
     from . import c16_cache
     c16_cache.run_rule(res, facts, tier)
+
+
+_run_c16_prev7 = run
+
+
+def run(res, facts, tier):
+    _run_c16_prev7(res, facts, tier)
+    from . import c16_sort
+    c16_sort.run_rule(res, facts, tier)
